@@ -11,6 +11,7 @@ package c17
 import (
 	"bytes"
 	"fmt"
+	"hash/crc32"
 	"math/rand"
 	"os"
 	"path/filepath"
@@ -236,6 +237,10 @@ func mstr(m *storelab.Model) string {
 
 func openAt(dir string) (quickfix.MessageStore, error) {
 	cfg := fmt.Sprintf("[DEFAULT]\nFileStorePath=%s\nSenderCompID=S\nTargetCompID=T\n[SESSION]\nBeginString=FIX.4.2\n", dir)
+	if crc32.ChecksumIEEE([]byte(dir))%2 == 0 {
+		// syncing (the default) switched on by the session section against FileStoreSync=N in [DEFAULT]
+		cfg = fmt.Sprintf("[DEFAULT]\nFileStorePath=%s\nFileStoreSync=N\nSenderCompID=S\nTargetCompID=T\n[SESSION]\nBeginString=FIX.4.2\nFileStoreSync=Y\n", dir)
+	}
 	st, err := quickfix.ParseSettings(strings.NewReader(cfg))
 	if err != nil {
 		return nil, err
